@@ -9,6 +9,7 @@ import TinodeVerif.Driver.World
 import TinodeVerif.Driver.Gate
 import TinodeVerif.Driver.Calls
 import TinodeVerif.Driver.Files
+import TinodeVerif.Driver.Preview
 /-!
 Line-protocol driver. Usage:
   driver model    < ops.txt        > model.out     one output line per op line
@@ -40,6 +41,7 @@ def modelLine (st : DState) (line : String) : DState × String :=
       else if w.startsWith "q." || w.startsWith "tags." then Driver.C19.model ws
       else if w.startsWith "tok." || w.startsWith "key." then Driver.C12.model ws
       else if w.startsWith "tx." then Driver.C18.model ws
+      else if w.startsWith "push." then Driver.Preview.model ws
       else none
     match r with
     | some s => (st, s)
@@ -60,6 +62,7 @@ def verdictLine (line : String) : String :=
         else if w.startsWith "ring." then Driver.C17.verdict ws os
         else if w.startsWith "q." || w.startsWith "tags." then Driver.C19.verdict ws os
         else if w.startsWith "tok." || w.startsWith "key." || w.startsWith "code." then Driver.C12.verdict ws os
+        else if w.startsWith "push." then Driver.Preview.verdict ws os
         else some true
       match r with
       | some true => "ok"
